@@ -18,6 +18,8 @@ pub mod c12;
 pub mod c13;
 pub mod c14;
 pub mod c15;
+pub mod c16;
+pub mod objgen;
 pub mod curvegen;
 pub mod fxgen;
 pub mod c17;
@@ -41,6 +43,7 @@ pub fn make(id: &str) -> Option<Box<dyn Prop>> {
         "C13" => Some(Box::new(c13::C13::new())),
         "C14" => Some(Box::new(c14::C14::new())),
         "C15" => Some(Box::new(c15::C15::new())),
+        "C16" => Some(Box::new(c16::C16::new())),
         "C17" => Some(Box::new(c17::C17::new())),
         "C18" => Some(Box::new(c18::C18::new())),
         "C19" => Some(Box::new(c19::C19::new())),
